@@ -251,14 +251,35 @@ class Boom(Exception):
     pass
 
 
+class _Plugins:
+    """the three recorder plugins; number 2 is a *bound method*, looked up afresh
+    on every access like an embedder writing `obj.on_sig` would: equal to the
+    registered entry but never the identical object"""
+
+    def __init__(self, w):
+        self.w = w
+        self.fns = [w._mk_plugin(0), w._mk_plugin(1)]
+
+    def __getitem__(self, i):
+        if i == 2:
+            return self.w.recorder_method
+        return self.fns[i]
+
+
 class World:
+    def recorder_method(self, tape, stack, cache):
+        phase = 'ct' if len(tape.data) == 0 else 'se'
+        self.log.append(['P', 2, phase])
+        self.fire(['plugin', 2], own=2, phase=phase)
+        return PRET[2]
+
     def __init__(self, run):
         self.run = run
         self.m = Model()
         self.log = []
         self.armed = None
         self.depth = 0
-        self.plugins = [self._mk_plugin(i) for i in range(3)]
+        self.plugins = _Plugins(self)
         self.kinds = {}
         w = self
 
